@@ -298,9 +298,14 @@ impl Ctx {
                 let want = if api == "zaddr" { s.trim() } else { s };
                 let canonical = enc == want;
                 if !canonical {
-                    let what = if api == "zaddr" { obs.kind() } else { api };
+                    // the decoding site: Sapling and TEX have their own Bech32 paths in
+                    // encoding.rs; all unified containers share `unified::Encoding::decode`
+                    let site = match (&obs, api) {
+                        (Obs::Unified(_), _) => "unified-container",
+                        (o, _) => o.kind(),
+                    };
                     self.viol(
-                        &format!("accepted-noncanonical:{what}:{}", noncanonical_class(want, &enc)),
+                        &format!("accepted-noncanonical:{site}:{}", noncanonical_class(want, &enc)),
                         format!("{api} parser accepted {:?} but it re-encodes to {:?}", clip(s), clip(&enc)),
                         json!({"api": api, "s": clip(s), "reencoded": clip(&enc)}),
                     );
@@ -514,9 +519,9 @@ fn unknown_item(c: &mut Ctx) -> (u32, Vec<u8>) {
     } else {
         c.rng.gen_range(4..=MAX_COMPACT)
     };
-    let len = match c.rng.gen_range(0..20) {
-        0 => c.rng.gen_range(0xfff0..0x10010), // 2-byte/4-byte compactSize edge
-        1..=8 => *BOUNDARY_LEN.choose(&mut c.rng).unwrap(),
+    let len = match c.rng.gen_range(0..400) {
+        0 => c.rng.gen_range(0xfff0..0x10010), // 2-byte/4-byte compactSize edge (rare: 130 KB strings)
+        1..=160 => *BOUNDARY_LEN.choose(&mut c.rng).unwrap(),
         _ => c.rng.gen_range(0..100),
     };
     (tc, c.bytes(len))
@@ -1060,35 +1065,37 @@ fn section_fuzz(c: &mut Ctx, n: u64, frac: f64) {
             c.ev(json!({"k": "parse", "api": "zaddr", "s": s, "res": obs_event(&o)}));
         }
     }
-    // very long strings (shard-dependent sizes); only totality and (b) are checked
-    let sizes: &[usize] = if c.r.args().tier == vh_common::Tier::Quick { &[1 << 16, 1 << 20] } else { &[1 << 16, 1 << 20, 7_000_000, 1 << 24] };
-    for &sz in sizes {
+    // Very long strings; only totality and (b) are checked. Base58 decoding (the parser's last
+    // resort) is quadratic in the string length -- a 1 MiB string of Base58 characters keeps
+    // `ZcashAddress::from_str` busy for ~10 minutes -- so the multi-megabyte strings carry a character
+    // outside the Base58 alphabet ('0') near the front and only modest ones are pure Base58.
+    let quick = c.r.args().tier == vh_common::Tier::Quick;
+    let big: &[usize] = if quick { &[1 << 16, 1 << 20] } else { &[1 << 16, 1 << 20, 7_000_000, 1 << 24] };
+    let b58_sizes: &[usize] = if quick { &[1 << 10, 1 << 12] } else { &[1 << 10, 1 << 12, 1 << 14] };
+    let mut variants: Vec<(String, &str)> = vec![];
+    for &sz in big {
+        variants.push((format!("u10{}", "q".repeat(sz)), "long-bech32m-like"));
+        variants.push((format!("zs10{}", "l".repeat(sz)), "long-bech32-like"));
+        variants.push((format!("{}t1Hsc1LR8yKnbbe3twRp88p6vFfC5t7DLbs\n", " ".repeat(sz)), "long-whitespace-prefix"));
+        variants.push(("\u{10ffff}".repeat(sz / 4), "long-astral"));
+        variants.push((format!("0{}", "1".repeat(sz)), "long-ones"));
+    }
+    for &sz in b58_sizes {
+        variants.push((format!("u1{}", "q".repeat(sz)), "base58-alphabet-bech32-like"));
+        variants.push((format!("t1{}", "z".repeat(sz)), "base58-alphabet"));
+        variants.push(("1".repeat(sz), "base58-ones"));
+    }
+    for (s, kind) in variants {
         if !c.r.time_left() {
             break;
         }
-        let variants: Vec<(String, &str)> = vec![
-            (format!("u1{}", "q".repeat(sz)), "long-bech32-q"),
-            (format!("zs1{}", "l".repeat(sz)), "long-bech32-l"),
-            ("1".repeat(sz), "long-ones"),
-            ("t1".to_string() + &"z".repeat(sz), "long-base58"),
-            (" ".repeat(sz) + "t1Hsc1LR8yKnbbe3twRp88p6vFfC5t7DLbs", "long-whitespace-prefix"),
-            ("\u{10ffff}".repeat(sz / 4), "long-astral"),
-        ];
-        for (s, kind) in variants {
-            let o = c.parse_zaddr(&s, "long");
-            for (name, r) in [
-                ("ua", guard(|| unified::Address::decode(&s).is_ok())),
-                ("ufvk", guard(|| unified::Ufvk::decode(&s).is_ok())),
-                ("uivk", guard(|| unified::Uivk::decode(&s).is_ok())),
-            ] {
-                if let Err(p) = r {
-                    c.viol(&format!("parse-panic:{name}:{}", panic_class(&p)), format!("panicked on {kind} of {sz}: {p}"), json!({"kind": kind, "size": sz}));
-                }
-            }
-            c.r.case(&("long", kind, sz, o.is_some()), true);
-            c.r.count("long_strings", 1);
-            c.r.set_max("max_string_bytes", s.len() as u64);
+        let o = c.parse_zaddr(&s, "long");
+        for api in ["ua", "ufvk", "uivk"] {
+            let _ = c.observe(api, &s, "long");
         }
+        c.r.case(&("long", kind, s.len(), o.is_some()), true);
+        c.r.count("long_strings", 1);
+        c.r.set_max("max_string_bytes", s.len() as u64);
     }
 }
 
@@ -1228,7 +1235,7 @@ fn section_f4(c: &mut Ctx, frac: f64) {
     let quick = c.r.args().tier == vh_common::Tier::Quick;
     let (shard, nshards) = (c.r.args().shard as usize, c.r.args().nshards as usize);
     let mut py_budget: usize = if quick { 10 << 20 } else { 120 << 20 };
-    let deadline = c.r.frac_left() - frac;
+    let deadline = (c.r.frac_left() - frac).max(0.0);
     // dense at both ends and around the structural boundaries, split over the shards
     let dense = if quick { 400 } else { 4000 };
     let mut lens: Vec<usize> = vec![];
@@ -1260,17 +1267,17 @@ fn section_f4(c: &mut Ctx, frac: f64) {
         f4_case(c, len, &mut py_budget);
     }
     // random lengths, log-uniform in between
-    let n = if quick { 3000 } else { 60000 };
+    let n = if quick { 6000 } else { 200_000 };
     let mut i = 0;
     while i < n && c.r.frac_left() > deadline {
         i += 1;
-        let len = match c.rng.gen_range(0..10) {
+        let len = match c.rng.gen_range(0..100) {
             0 => c.rng.gen_range(F4_MIN..=F4_MAX),
-            1..=2 => {
+            1..=12 => {
                 let e = c.rng.gen_range(6.0..22.0f64);
                 (2f64.powf(e) as usize).clamp(F4_MIN, F4_MAX)
             }
-            3 => F4_MAX + 1 + c.rng.gen_range(0..100_000),
+            13..=15 => F4_MAX + 1 + c.rng.gen_range(0..100_000),
             _ => c.rng.gen_range(F4_MIN..2000),
         };
         f4_case(c, len, &mut py_budget);
@@ -1467,16 +1474,28 @@ fn main() {
         corpus: vec![],
         events_left: args.get_u64("max-events", if quick { 9_000 } else { 120_000 }),
     };
-    // shares of the wall-clock budget: values .20, typed .15, python cases .15, mutants .15, fuzz .10, f4 .25
+    // shares of the wall-clock budget (python cases are capped by their number only)
+    let mut t = c.r.elapsed();
+    let mut lap = |c: &mut Ctx, name: &str| {
+        let now = c.r.elapsed();
+        c.r.set_max(&format!("max_ms_section_{name}"), (now - t).as_millis() as u64);
+        t = now;
+    };
     section_values(&mut c, args.pick(6_000, 400_000), 0.20);
+    lap(&mut c, "values");
     section_typed(&mut c, args.pick(150, 6_000), 0.15);
+    lap(&mut c, "typed");
     if let Some(path) = args.extra.get("cases").cloned() {
         section_cases(&mut c, &path);
     } else {
         c.r.note("no --cases file: python-encoded malformed containers were not run");
     }
-    section_mutants(&mut c, args.pick(12_000, 1_000_000), 0.15);
-    section_fuzz(&mut c, args.pick(6_000, 400_000), 0.10);
-    section_f4(&mut c, 0.30);
+    lap(&mut c, "pycases");
+    section_mutants(&mut c, args.pick(30_000, 1_000_000), 0.15);
+    lap(&mut c, "mutants");
+    section_fuzz(&mut c, args.pick(15_000, 400_000), 0.10);
+    lap(&mut c, "fuzz");
+    section_f4(&mut c, 1.0);
+    lap(&mut c, "f4");
     c.r.finish();
 }
